@@ -55,4 +55,50 @@ theorem remove1_matches_source (s : Store) (id : String) :
 theorem postProcess_matches_source (ttl now : Nat) (s : Store) (rs : List CheckResult) :
     postProcess ttl now s rs = add ttl now s (rs.filter (fun r => Gen.Src.c10Eligible r.pes r.eligible)) := rfl
 
+/-! ### decision trees of the working tree (`"kind": "tree"`): order of tests, nesting, exits -/
+
+/-- the loop body of `viewResults`: exit 1 (`continue`) skips the entry, exit 0 (end of the body) appends it —
+the model's view keeps exactly the entries whose regenerated tree falls off the end -/
+theorem view_loop_tree_matches_source (ttl now : Nat) (s : Store) :
+    view ttl now s =
+      (s.filter (fun p => Gen.Src.c10ViewLoopTree (now - p.2.addedAt) ttl == 0)).map (·.2.data) := by
+  simp only [view]
+  congr 1
+  apply List.filter_congr
+  intro p _
+  simp only [Gen.Src.c10ViewLoopTree, expired]
+  by_cases h : now - p.2.addedAt > ttl <;> simp [h]
+
+/-- the body of `remove`: exit 1 (the early `return`) leaves the store, exit 0 falls through to `delete` —
+for every store and id -/
+theorem remove_tree_matches_source (s : Store) (id : String) :
+    remove1 s id =
+      match Gen.Src.c10RemoveTree (get s id).isSome with
+      | 1 => s
+      | _ => erase s id := by
+  simp only [remove1, Gen.Src.c10RemoveTree]
+  cases get s id <;> simp
+
+/-! The loop bodies of `Add`, `gc` and `PostProcess` have no `return` / `continue` / `break`: their branches differ in
+the EFFECT executed (assignment, `delete`, call of `Add`), which a tree of exits does not record — every leaf is 0.
+What the regenerated trees still carry is the order and nesting of the tests; the three theorems below pin exactly
+that (definitional equality with the nesting `add1` / `gc` / `postProcess` use, so swapping or re-nesting the `if`s
+no longer builds).  Which effect sits in which branch is tied by `add1_matches_source`, `gc_matches_source`,
+`postProcess_matches_source` through the single conditions. -/
+
+/-- `Add`'s loop body tests "missing or dead" first and "strictly higher block" only in its else-branch — the
+nesting of `add1` -/
+theorem add_loop_shape_matches_source :
+    Gen.Src.c10AddLoopTree = fun ok age ttl storedBlock newBlock =>
+      if Gen.Src.c10AddMissingOrDead ok age ttl then 0
+      else if Gen.Src.c10AddReplaces storedBlock newBlock then 0 else 0 := rfl
+
+/-- `gc`'s loop body is one test, the one `gc` filters by -/
+theorem gc_loop_shape_matches_source :
+    Gen.Src.c10GcLoopTree = fun age ttl => if Gen.Src.c10GcExpired age ttl then 0 else 0 := rfl
+
+/-- `PostProcess`'s loop body is one test, the one `postProcess` filters by -/
+theorem postProcess_loop_shape_matches_source :
+    Gen.Src.c10PostProcessLoopTree = fun pes eligible => if Gen.Src.c10Eligible pes eligible then 0 else 0 := rfl
+
 end AutoVerif.C10
